@@ -299,6 +299,11 @@ void SchemaGrammar::serialize(XSerializeEngine& serEng)
         serEng.writeString(fTargetNamespace);
         serEng<<fValidated;
 
+        // the next scope / anonymous type numbers, needed when the restored
+        // grammar is extended (multi-import)
+        serEng<<fScopeCount;
+        serEng<<fAnonTypeCount;
+
         /***
          * serialize() method shall be used to store object
          * which has been created in ctor
@@ -351,6 +356,9 @@ void SchemaGrammar::serialize(XSerializeEngine& serEng)
 
         serEng.readString(fTargetNamespace);
         serEng>>fValidated;
+
+        serEng>>fScopeCount;
+        serEng>>fAnonTypeCount;
 
         /***
          * serialize() method shall be used to load object
